@@ -58,7 +58,7 @@ class Engine:
         self.ranges = {}  # Int mode: declaration name -> (lo, hi) used by the interval pre-filter of branch()
         self.in_path = False
         # int subclass without own state: modelled as the integer itself
-        self.class_models = {("py7zr.helpers", "ArchiveTimestamp"): lambda eng, x: x}
+        self.class_models = {("py7zr.helpers", "ArchiveTimestamp"): lambda eng, x: self.models._int(eng, x)}
         for m in modules:
             self.load(m)
         from vf.pysym import models
